@@ -244,7 +244,8 @@ def _signatures(ctx):
             'clean', 'truncated', 'wrong', 'swapped', 'fat', 'size 1',
             'text', 'zeros', 'pattern', 'empty', 'byte', 'protective mbr',
             'payload 8 length 4096', 'udf', '1000 blocks of 2048',
-            'version 1', 'header only', 'ident', 'qed', 'plain'))]
+            'version', 'header only', 'ident', 'qed', 'plain',
+            'compact', 'entry first', 'item first'))]
         for label, data in keep:
             imgs['%s|%s' % (fmt, label)] = data
     for label, data in images.polyglots():
@@ -252,7 +253,7 @@ def _signatures(ctx):
     tasks = []
     for key in imgs:
         for fmt, cls in sorted(reg.items()):
-            for s in ('giant', 'trickle'):
+            for s in ('giant', 'trickle', 'birth-partial', 'two-step'):
                 tasks.append((cls, key, s))
     results = _insp.run_matrix(ctx, tasks, imgs)
     rep.count('inspector x image x schedule runs', len(results), floor=2000)
